@@ -82,7 +82,7 @@ type CrashPlan struct {
 	Depth     int   `json:"depth"`      // nested crash depth (1 = only first-level images)
 	Nested    int   `json:"nested"`     // per level: how many recoveries are themselves recorded and enumerated
 	Only      []int `json:"only,omitempty"`       // replay: only these first-level crash indices
-	OnlyCut   int   `json:"only_cut,omitempty"`   // replay: cut variant
+	OnlyCut   []int `json:"only_cuts,omitempty"`  // debugging aid with Only: per depth, the cut variant whose recovery is enumerated further
 	PostTxns  int   `json:"post_txns"`  // transactions of the post-recovery workload
 }
 
